@@ -52,7 +52,7 @@ claim('C17',
       '1-based min/max index, ascending sort + ref-1 for rank, first-occurrence numbering from 1 with inverse map '
       'in attrs for combine, and the statistic-name table of cell_stats.',
       'Trusted: semantics of np.nditer(order=), list.index, min/max, sorted; reshape row-major.',
-      'AST dataflow/pattern rules specific to local.py (iteration order, comparator table, dominance of NaN guard) read on a canonical view (helpers and phases inlined, library call spellings and three iteration idioms normalised)',
+      'AST dataflow/pattern rules specific to local.py (iteration order, reshape, combine bookkeeping) read on a canonical view; the per-cell code of the frequency / position / rank operators is decided by folding it (consteval, a pure-Python subset, no library code) on every weak ordering of up to three layers with and without NaN - it touches the values only through comparisons',
       'DESIGN.md §4 C17')
 claim('C18',
       'Static analysis of the trim/crop scan kernels reached from the public functions: decides the premises of '
@@ -63,7 +63,7 @@ claim('C18',
       'of the right raster returned unmodified except for its name.',
       'Trusted: the half-page argument that these premises give the bounding box of kept cells; xarray basic '
       'slicing keeps cells, coordinates and attrs. Behaviour when nothing is kept is not decided.',
-      'symbolic interpretation of the scan kernels (end-of-iteration values, break paths, flag-setting loop summaries) + decision tables for the keep test and the NaN-aware equality; wrapper terms for the returned window; syntactic scan-skeleton rule as fallback',
+      'symbolic interpretation of the scan kernels (end-of-iteration values, break paths, flag-setting loop summaries; a boolean cell-classification array is dissolved by an exact source normal form) + decision tables for the keep test and the NaN-aware equality over small models with a near-miss value; wrapper terms for the returned window; syntactic scan-skeleton rule as fallback',
       'DESIGN.md §4 C18')
 
 claim('C10',
